@@ -87,9 +87,12 @@ class FuncInfo:
     self.outer = outer  # enclosing FuncInfo for nested functions
     self.name = node.name
     self.nested = {}
+    self.ambiguous_nested = set()      # names bound by several nested `def`s (one per branch): which one a call means depends on the path
     for st in ast.walk(node):
       if st is not node and isinstance(st, (ast.FunctionDef, ast.AsyncFunctionDef)):
         if enclosing_function(st) is node:
+          if st.name in self.nested:
+            self.ambiguous_nested.add(st.name)
           self.nested[st.name] = FuncInfo(module, st, cls, 'nested', self)
 
   @property
@@ -223,6 +226,9 @@ class Repo:
     if flatten:
       import json
       from mmsa import canon, inline
+      from mmsa import specialise
+      self.class_constants = specialise.class_constants(self)
+      self.keyword_defaults = specialise.keyword_defaults(self)
       self.hoisted_walrus = canon.hoist_walrus_repo(self)
       self.canonicalised_calls = canon.canonicalise_repo(self)
       with open(os.path.join(os.path.dirname(os.path.abspath(__file__)), 'pinned_names.json')) as fh:
@@ -247,6 +253,14 @@ class Repo:
             self.residual_helpers.add(f_.qualname)
       from mmsa import lower
       self.lowered = lower.lower_repo(self)
+      # lowering (unrolled tables of method names, folded defaults) can expose calls of helpers that were hidden behind a
+      # name computed from a table: inline and lower once more
+      if any('unrolled' in x_ or 'folded' in x_ or 'setattr/getattr' in x_ for x_ in self.lowered):
+        again = inline.flatten_repo(self, pinned)
+        if again:
+          for q_, hs_ in again.items():
+            self.flattened[q_] = list(self.flattened.get(q_, [])) + list(hs_)
+          self.lowered += lower.lower_repo(self)
       # the rewritten functions must still be well-formed Python: a malformed rewrite is a checker fault (exit 2)
       import copy as _copy
       for q_, f_ in self.functions.items():
